@@ -62,6 +62,14 @@ func writeReplay(w *World, prop string, v violation, path string) bool {
 		}
 	case "undischarged":
 		rf.Note = "no solver discharged this obligation within the time limit (it was discharged on the pinned tree); no failing input found"
+		if w != nil && v.fn != nil && v.obl != nil && v.obl.CandQuery != "" {
+			// the quantifier-free weakening has a model: try it on the real code
+			rf.Replay = tryReplay(w, v)
+			if rf.Replay != nil && rf.Replay.Outcome == "confirmed" {
+				rf.Confirmed = true
+				rf.Note = "undischarged; a candidate counterexample from the quantifier-free weakening of the obligation was confirmed on the real code"
+			}
+		}
 	case "missing":
 		rf.Note = "an obligation that the ledger expects is no longer generated (function, loop or call site removed or renamed)"
 	case "left-subset":
